@@ -3,6 +3,7 @@ import ZarrsModel.Model.Hier
 import ZarrsModel.Model.Float
 import ZarrsModel.Driver.Proto
 import ZarrsModel.Driver.C13V2
+import ZarrsModel.Driver.C13Opts
 /- driver handlers for C13 (unverified glue around `Zarrs.Meta`, `Zarrs.Hier`, `Zarrs.Json`) -/
 namespace Zarrs.DriverC13
 open Zarrs Zarrs.Json Zarrs.Meta Zarrs.Hier Zarrs.Proto
@@ -171,6 +172,17 @@ def handleOp (st : St) (l : Line) : Option (St × List String) := do
     else if (m.get (pre ++ kZgroup)).isSome then pure ({ kv := (m.erase (pre ++ kZgroup)).erase (pre ++ kZattrs) }, ["ok"])
     else if (m.get (pre ++ kZarray)).isSome then pure ({ kv := (m.erase (pre ++ kZarray)).erase (pre ++ kZattrs) }, ["ok"])
     else pure (st, ["none"])
+  | "setattrs" =>
+    -- the node's attributes replaced by `n` entries and its metadata stored again: a V3 document keeps its key, a V2
+    -- node's `.zattrs` exists afterwards iff there are attributes
+    let pre := prefixOfPath (← l.get "p")
+    let n := ((l.get "n").bind (·.toNat?)).getD 0
+    match m.get (pre ++ kZarrJson) with
+    | some v => if v == [1] || v == [2] then pure (st, ["ok"]) else pure (st, ["none"])
+    | none =>
+      if (m.get (pre ++ kZgroup)).isSome || (m.get (pre ++ kZarray)).isSome then
+        pure ({ kv := if n > 0 then m.put (pre ++ kZattrs) [5] else m.erase (pre ++ kZattrs) }, ["ok"])
+      else pure (st, ["none"])
   | "rmnode" =>
     let pre := prefixOfPath (← l.get "p")
     pure ({ kv := (Spec.step m (.erasePrefix pre)).1 }, ["ok"])
@@ -226,6 +238,7 @@ def handleMut (l : Line) : Option (List String) := do
 def handle (st : St) (l : Line) : Option (St × List String × Option String) :=
   match l.verbs[1]? with
   | some "mut" => (handleMut l).map (fun a => (st, a, none))
+  | some "mopt" => (DriverC13Opts.handle l).map (fun a => (st, a, none))   -- Driver/C13Opts.lean
   | some "cfg" => some ({}, ["ok"], none)
   | some "op" => (handleOp st l).map (fun (s, a) => (s, a, none))
   | _ => (handleDoc l).map (fun a => (st, a, none))
